@@ -104,6 +104,9 @@ static void imm_tok(struct instr *instr_buffer, char *imme) {
     if ((instr_buffer->assembly_opt & SMART_MOV_IMM) &&
         imme_str_len < STR_HEX_64)
       instr_buffer->assembly_opt |= NASM_MOV_IMM;
+  } else if (instr_buffer->assembly_opt & SMART_MOV_IMM) {
+    // only a hexadecimal literal padded to 64 bits disables the optimization
+    instr_buffer->assembly_opt |= NASM_MOV_IMM;
   }
   // convert string to unsigned long for immediate representation
   instr_buffer->cons = strtoul(imme, NULL, base);
